@@ -11,7 +11,7 @@
 
 From CB Require Import Spec.
 From CBP Require Import MonadLemmas Arith AbsLemmas ListLemmas AbsOps Core Step Slices RefDefs
-     Views Iters AllOps SpecCorollaries.
+     Views Iters CmpHash AllOps SpecCorollaries.
 From Coq Require Import ZifyBool.
 Ltac Zify.zify_post_hook ::= Z.div_mod_to_equations.
 
@@ -53,27 +53,36 @@ Proof. unfold zlen. lia. Qed.
 
 (* ---- what the specification's comparisons compute ------------------------- *)
 
+(* element equality: equal values, and not the NaN-like value *)
+Lemma val_eqb_iff x y : val_eqb x y = true <-> eval x = eval y /\ eval x <> nan_val.
+Proof. unfold val_eqb. lia. Qed.
+
 Lemma spec_list_eq_vals xs : forall ys,
   length xs = length ys ->
-  (fst (spec_list_eq val_eqb xs ys) = true <-> vals xs = vals ys).
+  (fst (spec_list_eq val_eqb xs ys) = true <->
+   vals xs = vals ys /\ ~ In nan_val (vals xs)).
 Proof.
   induction xs as [|x xs IH]; intros [|y ys] Hl; cbn [length] in Hl; try discriminate.
   - cbn. tauto.
-  - cbn [spec_list_eq vals map]. unfold val_eqb at 1.
-    destruct (Z.eqb_spec (eval x) (eval y)) as [E|E].
-    + specialize (IH ys ltac:(lia)). destruct (spec_list_eq val_eqb xs ys) as [b evs].
-      cbn [fst] in *. rewrite IH. unfold vals. split; intros H.
-      * rewrite E, H. reflexivity.
-      * injection H as _ H. exact H.
-    + cbn [fst]. split; [discriminate|]. intros H. injection H as H _. contradiction.
+  - cbn [spec_list_eq vals map In]. pose proof (val_eqb_iff x y) as Hxy.
+    destruct (val_eqb x y).
+    + destruct Hxy as [Hxy _]. destruct (Hxy eq_refl) as [E En].
+      specialize (IH ys ltac:(lia)). destruct (spec_list_eq val_eqb xs ys) as [b evs].
+      cbn [fst] in *. rewrite IH. unfold vals. split.
+      * intros [H Hn]. split; [rewrite E, H; reflexivity|].
+        intros [Hc|Hc]; [exact (En Hc)|exact (Hn Hc)].
+      * intros [H Hn]. injection H as _ H. split; [exact H|]. intros Hc. apply Hn. right. exact Hc.
+    + cbn [fst]. split; [discriminate|]. intros [H Hn]. injection H as H _.
+      destruct Hxy as [_ Hxy]. apply Hxy. split; [exact H|]. intros Hc. apply Hn. left. exact Hc.
 Qed.
 
+(* a sequence containing the NaN-like value equals nothing, not even itself *)
 Lemma spec_eq_vals xs ys :
-  fst (spec_eq val_eqb xs ys) = true <-> vals xs = vals ys.
+  fst (spec_eq val_eqb xs ys) = true <-> vals xs = vals ys /\ ~ In nan_val (vals xs).
 Proof.
   unfold spec_eq. destruct (Z.eqb_spec (zlen xs) (zlen ys)) as [E|E].
   - apply spec_list_eq_vals. apply zlen_eq_length. exact E.
-  - cbn [fst]. split; [discriminate|]. intros H. exfalso. apply E.
+  - cbn [fst]. split; [discriminate|]. intros [H _]. exfalso. apply E.
     apply zlen_eq_length. rewrite <- (vals_length xs), <- (vals_length ys), H. reflexivity.
 Qed.
 
@@ -91,13 +100,84 @@ Fixpoint lex_compare (xs ys : list Z) : comparison :=
     end
   end.
 
-Lemma spec_cmp_lex xs : forall ys,
-  fst (spec_cmp val_cmp xs ys) = Some (lex_compare (vals xs) (vals ys)).
+(* Ord::cmp of the elements is total: plain lexicographic comparison *)
+Lemma spec_ord_lex xs : forall ys,
+  fst (spec_cmp val_ord xs ys) = Some (lex_compare (vals xs) (vals ys)).
 Proof.
   induction xs as [|x xs IH]; intros [|y ys]; try reflexivity.
-  cbn [spec_cmp vals map lex_compare]. unfold val_cmp at 1.
+  cbn [spec_cmp vals map lex_compare]. unfold val_ord at 1.
+  destruct (eval x ?= eval y); try reflexivity.
+  specialize (IH ys). destruct (spec_cmp val_ord xs ys) as [r evs]. exact IH.
+Qed.
+
+(* PartialOrd::partial_cmp of the elements is partial: the lexicographic
+   comparison stops, undecided, at the first position it looks at where either
+   side holds the NaN-like value *)
+Fixpoint lex_partial (xs ys : list Z) : option comparison :=
+  match xs, ys with
+  | [], [] => Some Eq
+  | [], _ :: _ => Some Lt
+  | _ :: _, [] => Some Gt
+  | x :: xs', y :: ys' =>
+    if (x =? nan_val) || (y =? nan_val) then None else
+    match x ?= y with
+    | Eq => lex_partial xs' ys'
+    | c => Some c
+    end
+  end.
+
+Lemma spec_cmp_partial xs : forall ys,
+  fst (spec_cmp val_cmp xs ys) = lex_partial (vals xs) (vals ys).
+Proof.
+  induction xs as [|x xs IH]; intros [|y ys]; try reflexivity.
+  cbn [spec_cmp vals map lex_partial]. unfold val_cmp at 1.
+  destruct ((eval x =? nan_val) || (eval y =? nan_val)); [reflexivity|].
   destruct (eval x ?= eval y); try reflexivity.
   specialize (IH ys). destruct (spec_cmp val_cmp xs ys) as [r evs]. exact IH.
+Qed.
+
+(* without the NaN-like value it is the lexicographic order *)
+Lemma lex_partial_total xs : forall ys,
+  ~ In nan_val xs -> ~ In nan_val ys -> lex_partial xs ys = Some (lex_compare xs ys).
+Proof.
+  induction xs as [|x xs IH]; intros [|y ys] Hx Hy; try reflexivity.
+  cbn [lex_partial lex_compare]. cbn [In] in Hx, Hy.
+  replace ((x =? nan_val) || (y =? nan_val)) with false by (symmetry; apply orb_false_intro; apply Z.eqb_neq; intros ->; tauto).
+  destruct (x ?= y); try reflexivity. apply IH; tauto.
+Qed.
+
+(* it is undecided exactly when the sequences share a prefix free of the
+   NaN-like value that is followed, on either side, by the NaN-like value *)
+Lemma lex_partial_none xs : forall ys,
+  lex_partial xs ys = None <->
+  exists p x xs' y ys', xs = p ++ x :: xs' /\ ys = p ++ y :: ys' /\
+    ~ In nan_val p /\ (x = nan_val \/ y = nan_val).
+Proof.
+  induction xs as [|x xs IH]; intros [|y ys]; cbn [lex_partial].
+  - split; [discriminate|]. intros (p & x & xs' & y & ys' & H & _). destruct p; discriminate.
+  - split; [discriminate|]. intros (p & x & xs' & y' & ys' & H & _). destruct p; discriminate.
+  - split; [discriminate|]. intros (p & x' & xs' & y & ys' & _ & H & _). destruct p; discriminate.
+  - destruct ((x =? nan_val) || (y =? nan_val)) eqn:En.
+    + split; [intros _|reflexivity]. exists [], x, xs, y, ys. cbn [app In].
+      repeat split; try tauto. lia.
+    + destruct (Z.compare_spec x y) as [E|E|E].
+      * rewrite IH. split.
+        -- intros (p & x' & xs' & y' & ys' & -> & -> & Hp & Hn).
+           exists (x :: p), x', xs', y', ys'. cbn [app In]. subst y.
+           repeat split; try assumption. intros [Hc|Hc]; [lia|exact (Hp Hc)].
+        -- intros ([|q p] & x' & xs' & y' & ys' & Hx & Hy & Hp & Hn); cbn [app] in Hx, Hy.
+           ++ injection Hx as -> ->. injection Hy as -> ->. lia.
+           ++ injection Hx as -> ->. injection Hy as _ ->.
+              exists p, x', xs', y', ys'. repeat split; try assumption.
+              intros Hc. apply Hp. right. exact Hc.
+      * split; [discriminate|].
+        intros ([|q p] & x' & xs' & y' & ys' & Hx & Hy & Hp & Hn); cbn [app] in Hx, Hy.
+        -- injection Hx as -> ->. injection Hy as -> ->. lia.
+        -- injection Hx as -> ->. injection Hy as -> ->. lia.
+      * split; [discriminate|].
+        intros ([|q p] & x' & xs' & y' & ys' & Hx & Hy & Hp & Hn); cbn [app] in Hx, Hy.
+        -- injection Hx as -> ->. injection Hy as -> ->. lia.
+        -- injection Hx as -> ->. injection Hy as -> ->. lia.
 Qed.
 
 (* [lex_compare] is what its name says *)
@@ -125,10 +205,12 @@ Proof. destruct v; cbn [erase_out]; intros <-; auto. Qed.
 
 (* ---- 1. equality -------------------------------------------------------------- *)
 
+(* [==] on two buffers: the same values, none of them the NaN-like value
+   (which is not equal to itself) *)
 Theorem exec_eq_iff a b w r a' w' :
   WF a -> WF b -> fault w = None ->
   exec (OEq b) a w = (Ok (OutBool r), a', w') ->
-  (r = true <-> vals (abs a) = vals (abs b)) /\ abs a' = abs a.
+  (r = true <-> vals (abs a) = vals (abs b) /\ ~ In nan_val (vals (abs a))) /\ abs a' = abs a.
 Proof.
   intros HWa HWb Hf He.
   destruct (exec_meets_spec (OEq b) a w _ _ _ HWa Hf HWb He) as (sr & Hs & Ho & Ha & _).
@@ -137,11 +219,21 @@ Proof.
   cbn [sr_out sr_list out_ok erase_out fst] in *. injection Ho as ->. split; assumption.
 Qed.
 
+(* on contents free of the NaN-like value, [==] is equality of the sequences of values *)
+Corollary exec_eq_iff_total a b w r a' w' :
+  WF a -> WF b -> fault w = None -> ~ In nan_val (vals (abs a)) ->
+  exec (OEq b) a w = (Ok (OutBool r), a', w') ->
+  (r = true <-> vals (abs a) = vals (abs b)) /\ abs a' = abs a.
+Proof.
+  intros HWa HWb Hf Hn He.
+  destruct (exec_eq_iff a b w r a' w' HWa HWb Hf He) as [H Ha]. split; [|exact Ha]. tauto.
+Qed.
+
 (* all six forms of comparing with a slice / an array *)
 Theorem exec_eq_slice_iff form xs a w r a' w' :
   WF a -> zlen xs < W -> fault w = None ->
   exec (OEqSlice form xs) a w = (Ok (OutBool r), a', w') ->
-  (r = true <-> vals (abs a) = vals xs) /\ abs a' = abs a.
+  (r = true <-> vals (abs a) = vals xs /\ ~ In nan_val (vals (abs a))) /\ abs a' = abs a.
 Proof.
   intros HWa Hx Hf He.
   destruct (exec_meets_spec (OEqSlice form xs) a w _ _ _ HWa Hf Hx He) as (sr & Hs & Ho & Ha & _).
@@ -150,21 +242,72 @@ Proof.
   cbn [sr_out sr_list out_ok erase_out fst] in *. injection Ho as ->. split; assumption.
 Qed.
 
+Corollary exec_eq_slice_iff_total form xs a w r a' w' :
+  WF a -> zlen xs < W -> fault w = None -> ~ In nan_val (vals (abs a)) ->
+  exec (OEqSlice form xs) a w = (Ok (OutBool r), a', w') ->
+  (r = true <-> vals (abs a) = vals xs) /\ abs a' = abs a.
+Proof.
+  intros HWa Hx Hf Hn He.
+  destruct (exec_eq_slice_iff form xs a w r a' w' HWa Hx Hf He) as [H Ha]. split; [|exact Ha]. tauto.
+Qed.
+
+(* a buffer that contains the NaN-like value is not equal to itself: the
+   behaviour of slices, and what an "identical object => equal" shortcut in
+   [PartialEq::eq] would break *)
+Theorem eq_self_nan a w :
+  WF a -> fault w = None -> In nan_val (vals (abs a)) ->
+  exists w', exec (OEq a) a w = (Ok (OutBool false), a, w').
+Proof.
+  intros HWa Hf Hn. cbn [exec].
+  pose proof (CmpHash.buf_eq_ok val_eqb a a w HWa HWa Hf) as H.
+  pose proof (spec_eq_vals (abs a) (abs a)) as Hv.
+  destruct (spec_eq val_eqb (abs a) (abs a)) as [r0 evs]. cbn [fst snd] in *.
+  destruct r0; [exfalso; apply (proj1 Hv eq_refl); exact Hn|].
+  eexists. erewrite bind_ok by exact H. reflexivity.
+Qed.
+
 (* ---- 2. ordering -------------------------------------------------------------- *)
 
-Theorem exec_cmp_lex a b w r a' w' :
+(* PartialOrd::partial_cmp, in general: [lex_partial] *)
+Theorem exec_cmp_partial a b w r a' w' :
   WF a -> WF b -> fault w = None ->
   exec (OPartialCmp b) a w = (Ok (OutOrd r), a', w') ->
-  r = Some (lex_compare (vals (abs a)) (vals (abs b))) /\ abs a' = abs a.
+  r = lex_partial (vals (abs a)) (vals (abs b)) /\ abs a' = abs a.
 Proof.
   intros HWa HWb Hf He.
   destruct (exec_meets_spec (OPartialCmp b) a w _ _ _ HWa Hf HWb He) as (sr & Hs & Ho & Ha & _).
-  cbn [spec_step] in Hs. pose proof (spec_cmp_lex (abs a) (abs b)) as Hv.
+  cbn [spec_step] in Hs. pose proof (spec_cmp_partial (abs a) (abs b)) as Hv.
   destruct (spec_cmp val_cmp (abs a) (abs b)) as [r0 evs]. inversion Hs; subst sr; clear Hs.
   cbn [sr_out sr_list out_ok erase_out fst] in *. injection Ho as ->. split; assumption.
 Qed.
 
-(* Ord::cmp is only defined between buffers of the same capacity (same type) *)
+(* on contents free of the NaN-like value: the lexicographic order *)
+Theorem exec_cmp_lex a b w r a' w' :
+  WF a -> WF b -> fault w = None ->
+  ~ In nan_val (vals (abs a)) -> ~ In nan_val (vals (abs b)) ->
+  exec (OPartialCmp b) a w = (Ok (OutOrd r), a', w') ->
+  r = Some (lex_compare (vals (abs a)) (vals (abs b))) /\ abs a' = abs a.
+Proof.
+  intros HWa HWb Hf Hna Hnb He.
+  destruct (exec_cmp_partial a b w r a' w' HWa HWb Hf He) as [-> Ha]. split; [|exact Ha].
+  apply lex_partial_total; assumption.
+Qed.
+
+(* it is undecided exactly when the contents share a prefix free of the
+   NaN-like value that is followed, on either side, by the NaN-like value *)
+Corollary exec_cmp_none a b w r a' w' :
+  WF a -> WF b -> fault w = None ->
+  exec (OPartialCmp b) a w = (Ok (OutOrd r), a', w') ->
+  (r = None <->
+   exists p x xs' y ys', vals (abs a) = p ++ x :: xs' /\ vals (abs b) = p ++ y :: ys' /\
+     ~ In nan_val p /\ (x = nan_val \/ y = nan_val)).
+Proof.
+  intros HWa HWb Hf He.
+  destruct (exec_cmp_partial a b w r a' w' HWa HWb Hf He) as [-> _]. apply lex_partial_none.
+Qed.
+
+(* Ord::cmp is only defined between buffers of the same capacity (same type);
+   it is total, whatever the values *)
 Theorem exec_ord_cmp_lex a b w r a' w' :
   WF a -> WF b -> cap b = cap a -> fault w = None ->
   exec (OCmp b) a w = (Ok (OutOrd r), a', w') ->
@@ -172,8 +315,8 @@ Theorem exec_ord_cmp_lex a b w r a' w' :
 Proof.
   intros HWa HWb Hc Hf He.
   destruct (exec_meets_spec (OCmp b) a w _ _ _ HWa Hf (conj HWb Hc) He) as (sr & Hs & Ho & Ha & _).
-  cbn [spec_step] in Hs. pose proof (spec_cmp_lex (abs a) (abs b)) as Hv.
-  destruct (spec_cmp val_cmp (abs a) (abs b)) as [r0 evs]. inversion Hs; subst sr; clear Hs.
+  cbn [spec_step] in Hs. pose proof (spec_ord_lex (abs a) (abs b)) as Hv.
+  destruct (spec_cmp val_ord (abs a) (abs b)) as [r0 evs]. inversion Hs; subst sr; clear Hs.
   cbn [sr_out sr_list out_ok erase_out fst] in *. injection Ho as ->. split; assumption.
 Qed.
 
@@ -761,6 +904,34 @@ Example eq_layouts_example :
   log (snd (exec ODebug a w)) = [EvFmt (mkE 102 2); EvFmt (mkE 100 0)].
 Proof. vm_compute. repeat split. Qed.
 
+(* C13: the NaN-like value. A wrapped buffer holding [10; 13; 30] is not equal
+   to itself, to a copy of itself in another layout, or to a slice of its own
+   contents; partial_cmp with itself is undecided, but decided where the first
+   difference (or the end of either side) comes before the NaN-like value; cmp stays total; without the
+   NaN-like value everything is as before *)
+Example nan_example :
+  let a := mkB 3 3 1 (fun p => if p =? 1 then mkE 101 10 else if p =? 2 then mkE 102 nan_val else mkE 100 30) in
+  let b := mkB 4 3 0 (fun p => if p =? 0 then mkE 7 10 else if p =? 1 then mkE 8 nan_val else mkE 9 30) in
+  let c := mkB 3 3 0 (fun p => if p =? 0 then mkE 7 11 else if p =? 1 then mkE 8 nan_val else mkE 9 30) in
+  let d := mkB 3 1 1 (items a) in
+  let w := mkW false 1000 [] None in
+  vals (abs a) = [10; nan_val; 30] /\ vals (abs b) = [10; nan_val; 30] /\
+  vals (abs c) = [11; nan_val; 30] /\ vals (abs d) = [10] /\
+  fst (fst (exec (OEq a) a w)) = Ok (OutBool false) /\
+  fst (fst (exec (OEq b) a w)) = Ok (OutBool false) /\
+  fst (fst (exec (OEqSlice EqSlice (abs a)) a w)) = Ok (OutBool false) /\
+  log (snd (exec (OEq a) a w)) = [EvEq (mkE 101 10) (mkE 101 10); EvEq (mkE 102 nan_val) (mkE 102 nan_val)] /\
+  fst (fst (exec (OPartialCmp a) a w)) = Ok (OutOrd None) /\
+  fst (fst (exec (OPartialCmp b) a w)) = Ok (OutOrd None) /\
+  fst (fst (exec (OPartialCmp c) a w)) = Ok (OutOrd (Some Lt)) /\
+  fst (fst (exec (OPartialCmp d) a w)) = Ok (OutOrd (Some Gt)) /\
+  fst (fst (exec (OPartialCmp a) d w)) = Ok (OutOrd (Some Lt)) /\
+  fst (fst (exec (OCmp a) a w)) = Ok (OutOrd (Some Eq)) /\
+  fst (fst (exec (OCmp c) a w)) = Ok (OutOrd (Some Lt)) /\
+  fst (fst (exec (OEq d) d w)) = Ok (OutBool true) /\
+  fst (fst (exec (OPartialCmp d) d w)) = Ok (OutOrd (Some Eq)).
+Proof. vm_compute. repeat split. Qed.
+
 (* C14: writing 2 bytes into a full, wrapped buffer of capacity 3 evicts the
    two oldest bytes; writing 5 bytes keeps the last 3; read and consume take
    from the front *)
@@ -791,6 +962,11 @@ Proof. vm_compute. reflexivity. Qed.
 
 Print Assumptions exec_eq_iff.
 Print Assumptions exec_eq_slice_iff.
+Print Assumptions exec_eq_iff_total.
+Print Assumptions exec_eq_slice_iff_total.
+Print Assumptions eq_self_nan.
+Print Assumptions exec_cmp_partial.
+Print Assumptions exec_cmp_none.
 Print Assumptions exec_cmp_lex.
 Print Assumptions exec_ord_cmp_lex.
 Print Assumptions exec_hash_contents.
